@@ -295,7 +295,7 @@ def extract_subgraph(mb, i):
             b = m.buffers[t.buffer]
             bufmap[t.buffer] = g.buffer(None if b.data is None else np.asarray(b.data, dtype=np.uint8))
         nt = s.TensorT()
-        nt.name, nt.shape, nt.type, nt.quantization, nt.buffer = t.name, list(t.shape), t.type, None, bufmap[t.buffer]
+        nt.name, nt.shape, nt.type, nt.quantization, nt.buffer = t.name, list(t.shape), t.type, copy.deepcopy(t.quantization), bufmap[t.buffer]
         g.sg.tensors.append(nt)
     for op in sg.operators:
         code = m.operatorCodes[op.opcodeIndex].builtinCode
@@ -501,3 +501,41 @@ def blockwise_probe(ctx, drv, interp, n, sharing=False, extra=None):
             oracle_c01(ctx, interp, case, res)
             if extra:
                 extra(case, res)
+
+
+def gen_blockwise_multi(rng):
+    """2-3 subgraphs / signatures; the FULLY_CONNECTED of ONE (or of every) subgraph gets BLOCKWISE weights (the emulated sub-channel pattern
+    REPLACES the operator and adds operator codes to the table all subgraphs share); the others hold FULLY_CONNECTED and other operators"""
+    from ai_edge_litert import schema_py_generated as s_
+    nsg = rng.choice([2, 2, 3])
+    g = gm.G()
+    data_shapes = {}
+    which = rng.randrange(nsg) if rng.random() < 0.75 else None   # None: every subgraph
+    for si in range(nsg):
+        g.subgraph(("sg%d" % si).encode())
+        gr = gm.Grower(g, rng, "s%d/" % si)
+        f, o = rng.choice([32, 64]), rng.choice([2, 4, 8])
+        gr.add_input([1, 2, f])
+        for _ in range(rng.randint(0, 2)):
+            gr.emit(rng.choice(["TANH", "ABS", "LOGISTIC"]))
+        src, _shape = gr.acts[-1]
+        w = gr.const([o, f], kind="normal")
+        b = gr.const([o], kind="small", base="b") if rng.random() < 0.5 else -1
+        y = gr.new_act([1, 2, o])
+        fco = s_.FullyConnectedOptionsT()
+        fco.keepNumDims = True
+        g.op(gm.BO.FULLY_CONNECTED, [src, w, b], [y], gm.OPT.FullyConnectedOptions, fco)
+        gr.out(y, [1, 2, o])
+        for _ in range(rng.randint(0, 2)):
+            gr.emit(rng.choice(["TANH", "ABS", "NEG"]))
+        for t in g.sg.tensors:
+            t.quantization = s_.QuantizationParametersT()
+        g.io(gr.inputs, [gr.acts[-1][0]], sig="sig%d" % si)
+    mb = g.bytes()
+    info = {"tags": {"blockwise_emulated_subchannel", "multi_subgraph"}, "subgraphs": [{"sig": "sig%d" % si, "int_inputs": [], "ops": ["FULLY_CONNECTED"]} for si in range(nsg)]}
+    cfg = fr.cdesc(None, fr.tdesc(8, True, "BLOCKWISE", "INT", rng.choice([16, 32])), "FLOAT", True, True)
+    cmds = [{"k": "add", "regex": ".*" if which is None else "^s%d/" % which, "operation": "FULLY_CONNECTED", "cfg": cfg, "alg": "min_max_uniform_quantize"}]
+    if which is not None and rng.random() < 0.5:
+        cmds.append({"k": "add", "regex": "^s%d/" % ((which + 1) % nsg), "operation": "FULLY_CONNECTED", "cfg": pl.UNIFORM[rng.choice(["wo8", "wo4", "drq8"])],
+                     "alg": "min_max_uniform_quantize"})
+    return Case(mb, info, cmds=cmds, data=gm.random_inputs(mb, rng, n=1), desc=[("blockwise", "all" if which is None else which, nsg)])
